@@ -354,8 +354,8 @@ class BurstMaster:
     (cyc/stb stay asserted), each held until acknowledged, the last beat carries CTI=7; classic and
     constant-address cycles in between."""
 
-    def __init__(self, nb, adr_max):
-        self.nb, self.adr_max = nb, adr_max
+    def __init__(self, nb, adr_max, linear_only=False):
+        self.nb, self.adr_max, self.linear_only = nb, adr_max, linear_only
         self.reset()
 
     def reset(self):
@@ -375,9 +375,9 @@ class BurstMaster:
             kind = rng.random()
             if kind < 0.25:     # classic / constant-address / lone end-of-burst cycle
                 self.beats = [(1, 1, we, adr, rng.randint(0, full), rng.randint(0, (1 << (8 * self.nb)) - 1),
-                               rng.choice((0, 1, 7)), rng.randint(0, 3))]
+                               rng.choice((0, 1, 7)), 0 if self.linear_only else rng.randint(0, 3))]
             else:
-                bte = rng.randint(0, 3)
+                bte = 0 if self.linear_only else rng.randint(0, 3)
                 k = (0, 2, 3, 4)[bte]
                 n = rng.randint(2, 9) if bte == 0 else rng.choice((2, 3, (1 << k) - 1, 1 << k))
                 for b in range(n):
@@ -464,6 +464,7 @@ class WbInst:
         self._monitor = monitor
         self.last_letter = None
         self.last_outs = None
+        self.letter_format = {"slave": FMT_SLAVE, "adapter": FMT_ADAPTER, "csr": FMT_CSR}[kind]
         if kind == "slave":
             self.qual = [None, 0, None]
         elif kind == "adapter":
